@@ -579,6 +579,30 @@ def c01(ctx):
         for _ in range(rng.choice([1, 1, 2, 3])):
             s = mutate(rng, s)
         cases.append({"src": s, "media": rng.choice(ALL_MEDIA), "rules": "all" if rng.random() < 0.8 else "recommended"})
+    # (5) directive-bearing files from the pipeline generator (all white-space kinds, custom words, external results)
+    for _ in range(2500 if quick else 40000):
+        sc = pipe.gen_scenario(rng)
+        cases.append(pipe.impl_case(sc))
+    # (6) every construct of the repo's tests in dead code / after an endless loop / in a do-while test position
+    wrappers = ["function __w() { return 1; %s\n}", "function __w() { throw 1; %s\n}", "for (;;) {}\n%s", "function __w() { while (true) {} %s\n}",
+                "switch (__d) { case 0: break; %s\n}", "function __w() { try { return 1; } finally { } %s\n}", "if (false) { %s\n}",
+                "class __C { get g() { return 1; %s\n} }", "label: { break label; %s\n}"]
+    for sn in (sample_corpus(rng, 1500) if quick else corpus):
+        w = rng.choice(wrappers)
+        cases.append({"src": w % sn["src"], "media": rng.choice(["ts", "tsx", "js"]), "rules": "all"})
+    # (7) regular-expression heavy files (long digit runs, \u{...} with many hex digits, deep groups), all rules
+    import regex as RX
+    pats = RX.gen_structured(rng, 1500 if quick else 30000) + RX.gen_deep(rng, 100 if quick else 1500)
+    pats += ["\\u{" + "1" * k + "}" for k in (5, 9, 16, 17, 18, 40)] + ["a{" + "9" * k + "}" for k in (18, 19, 20, 40)] + ["\\x" + "f" * 20, "\\" + "9" * 25, "(?<" + "a" * 300 + ">)"]
+    for i in range(0, len(pats), 4):
+        body = []
+        for q in pats[i:i + 4]:
+            if "\n" in q or "/" in q or q == "" or "\r" in q:
+                body.append("new RegExp(%s, %s);" % (json.dumps(q), json.dumps(RX.gen_flags(rng))))
+            else:
+                body.append("x = /%s/%s;" % (q, rng.choice(["", "u", "g", "gu"])))
+                body.append("new RegExp(%s);" % json.dumps(q))
+        cases.append({"src": "\n".join(body), "media": "js", "rules": "all"})
     # (4) deep nesting / long inputs (time proportional to input size)
     for n in ([200, 1000] if quick else [200, 1000, 4000]):
         cases.append({"src": "(" * n + "1" + ")" * n + ";", "media": "js", "rules": "all"})
@@ -591,7 +615,7 @@ def c01(ctx):
     res = lib.run_vh("lint", cases, per_case_timeout=3.0)
     trel = time.time() - t
     # debug build (overflow checks, debug assertions) on a sample
-    dbg_cases = rng.sample(cases, 1500 if quick else 20000)
+    dbg_cases = rng.sample(cases, 2500 if quick else 30000)
     t = time.time()
     dres = lib.run_vh("lint", dbg_cases, profile="debug", per_case_timeout=10.0)
     tdbg = time.time() - t
@@ -621,6 +645,7 @@ def c01(ctx):
             if seen[cls] <= 2:
                 ctx.violation(cls, "lint does not return normally (%s build): %s" % (build, json.dumps(r)[:200]), {"case": c, "build": build, "result": r, "parser_alone": p})
     ctx.extra["outcomes"] = dict(stat)
+    ctx.extra["failure_classes"] = dict(seen)
     ctx.correspondence("totality exploration: repo test programs x media types x rule subsets + malformed stream + deep/long inputs (release and debug builds)",
                        len(cases) + len(dbg_cases), len(nontriv), [],
                        "each case runs in a crash-isolated worker under a per-input time limit; non-trivial := input that parses and yields at least one diagnostic")
